@@ -322,6 +322,9 @@ impl<K: KeyT, V: ValT> World<K, V> {
             Some(msg) => json!({"t":"panic","class":panic_class(msg),"msg":msg}),
         };
         e.insert("res".into(), res);
+        // "big": 1 when a usize argument is given relative to usize::MAX / isize::MAX
+        let big = ["n", "cap"].iter().any(|f| op.get(*f).map_or(false, |v| v.is_object()));
+        e.insert("big".into(), json!(big as u8));
         for (k, v) in extra {
             e.insert(k.into(), v);
         }
@@ -329,7 +332,7 @@ impl<K: KeyT, V: ValT> World<K, V> {
         e.insert(
             "cost".into(),
             json!({"h":m.cost.h,"eq":m.cost.eq,"cl":m.cost.cl,"fn":m.cost.fnc,"al":m.cost.al,"de":m.cost.de,
-                   "live": LIVE.load(Relaxed)}),
+                   "live": live_tables()}),
         );
         e.insert(
             "led".into(),
